@@ -1,4 +1,5 @@
 import Tea.Proofs.Sequence
+import Tea.Proofs.SeqTrace
 /-
 C03 — Sequence runs its commands strictly one after another, in order.
 
@@ -353,5 +354,57 @@ example : (runLabels (init [.plain, .plain]) [.start, .finishPlain, .cancel, .ab
 example : (runLabels (init [.batch [false, false], .batch [], .plain])
     [.start, .finishBatch, .waitDone, .start, .finishBatch, .waitDone, .start]).map
     (fun s => (s.started, s.idx)) = some ([0, 1, 2], 2) := by decide
+
+/-! ## the tie by histories: the trace checker of the `strace` stream (`Tea/Runtime/SeqTrace.lean`)
+
+Recorded histories of real sequences (command starts, the loop's filter calls, the ends of its
+episodes) are checked against the product of the Sequence LTS with the loop's books. The checker is
+part of the correspondence machinery, not of the model; what is proved is that it cannot accept a
+history the model does not have. -/
+section Trace
+open Tea.Runtime.SeqTrace Tea.Runtime.Life
+
+/-- **ACCEPTED MEANS: THE MODEL HAS THAT RUN.** If the checker accepts the observations `obs` for a
+sequence `elems`, the product has a run from its initial state - hidden steps, then a run whose
+observable projection is exactly `obs` - and every state on it projects to a reachable state of the
+Sequence LTS. -/
+theorem C03_trace_checker_sound (elems : List Elem) (nils : List MsgId) (obs : List XLabel)
+    (h : firstRejectedX elems nils obs = none) :
+    ∃ hs0 s0 sN, (∀ l, l ∈ hs0 → l ∈ hiddenX (widthOf elems)) ∧
+      runG (stepX nils) (initX elems) hs0 = some s0 ∧
+      RunX nils (hiddenX (widthOf elems)) s0 obs sN ∧
+      Reachable elems s0.seq ∧ Reachable elems sN.seq := by
+  obtain ⟨hs0, s0, sN, hh, hr, hrun⟩ := firstRejectedX_sound elems nils obs h
+  have r0 : Reachable elems s0.seq := runG_reach nils elems _ _ _ Reachable.init hr
+  exact ⟨hs0, s0, sN, hh, hr, hrun, r0, hrun.reach r0⟩
+
+/-- every step of the product is a step of the Sequence LTS or leaves its state alone: the product
+only RESTRICTS the Sequence LTS (by what the loop can be seen doing), it adds no behaviour -/
+theorem C03_trace_projects (nils : List MsgId) (x x' : XSt) (l : XLabel) (h : stepX nils x l = some x') :
+    x'.seq = x.seq ∨ ∃ l', step x.seq l' = some x'.seq :=
+  stepX_proj nils x x' l h
+
+/-- so the theorems of this file hold along every accepted history; e.g. `C03_order`: at the end
+of an accepted history, whenever element `k` has been started every message of every earlier
+element has been received (or abandoned, after a cancellation) -/
+theorem C03_trace_accepted_order (elems : List Elem) (nils : List MsgId) (obs : List XLabel)
+    (h : firstRejectedX elems nils obs = none) :
+    ∃ sN : XSt, Reachable elems sN.seq ∧
+      ∀ k ∈ sN.seq.started, ∀ j, j < k → ∀ m ∈ msgsOf elems j, m ∈ sN.seq.received ∨ m ∈ sN.seq.abandoned := by
+  obtain ⟨_, _, sN, _, _, _, _, rN⟩ := C03_trace_checker_sound elems nils obs h
+  exact ⟨sN, rN, fun k hk j hj => C03_order elems sN.seq rN k hk j hj⟩
+
+/-- the product is not vacuous: a plain command is started, the loop (idle after the episode that
+handled the sequence message) takes its message and logs it -/
+example : (runG (stepX []) (initX [.plain]) [.idle, .startPlain 0, .hid .finishPlain, .recv, .logSeq ⟨0, 0⟩,
+    .idle, .hid .finish]).map (fun x => (x.seq.started, x.seq.received, x.seq.pc, x.busy)) =
+    some ([0], [⟨0, 0⟩], .done, false) := by decide
+
+/-- ... and the loop cannot take a message while it is busy, nor log an unrelated message while it
+holds one of the sequence -/
+example : runG (stepX []) (initX [.plain]) [.startPlain 0, .hid .finishPlain, .recv] = none ∧
+    runG (stepX []) (initX [.plain]) [.idle, .startPlain 0, .hid .finishPlain, .recv, .logOther] = none := by decide
+
+end Trace
 
 end Tea.Props.C03
